@@ -248,7 +248,7 @@ theorem updateHeaders_strip {m m' : MDL} (h : updateHeaders m = .ok m') :
 
 /-- **(b)** after `update_headers` every mesh of a used LOD starts at its first sub-mesh -/
 theorem updateHeaders_starts {m m' : MDL} (h : updateHeaders m = .ok m')
-    (hd : RangesDisjoint m.modelData.lods m.fileHeader.lodCount.toNat) : StartsFromSubmesh m' := by
+    (hd : RangesDisjoint m.modelData.lods m.lods.length) : StartsFromSubmesh m' := by
   have hf := (updateHeaders_core h).2
   unfold updateHeaders at h
   obtain ⟨meshes, hmeshes, h⟩ := bind_ok h
@@ -267,7 +267,7 @@ theorem updateHeaders_starts {m m' : MDL} (h : updateHeaders m = .ok m')
   have hsub : m'.modelData.submeshes = m.modelData.submeshes := by rw [← e]
   have s := (updateMeshOffsets_strip hmeshes).2 hd
   intro i hi d hdc
-  rw [hf.lodCount] at hi
+  rw [hf.partsLen] at hi
   obtain ⟨r1, r2⟩ := hf.lodAt_ranges i
   rw [r2] at hdc
   rw [r1, hmesh, hsub]
